@@ -25,8 +25,8 @@
 //   repair step repeated as the timed event would (handle_repair_data_send while repair_mode), a
 //   HEARTBEAT tick.  One fixed family of scenarios runs the repair through the real timer
 //   (handle_timed_event).  Acknowledgment bases never move backwards.
-//   EXCLUDED (candidate finding F11, see F11_FIXED): a reader matched late by a non-Volatile writer that
-//   requests a still retrievable sample written for the other reader.
+//   A reader matched late by a non-Volatile writer that requests a still retrievable sample written for
+//   the other reader is part of the sweep (former finding F11, repaired by 2d0b53a).
 #[cfg(test)]
 mod verif_xc_writer_repair {
   use std::{
@@ -49,11 +49,6 @@ mod verif_xc_writer_repair {
     structure::{guid::EntityKind, sequence_number::SequenceNumberSet},
     RepresentationIdentifier,
   };
-
-  // Candidate finding F11: matched_reader_update sets pending GAPs only for a Volatile writer, so a late
-  // joiner that requests a retained sample written for another reader gets neither DATA nor GAP.  Set to
-  // true once that is repaired; the scenarios are then part of the sweep.
-  const F11_FIXED: bool = false;
 
   const A: usize = 0;
   const B: usize = 1;
@@ -390,7 +385,6 @@ mod verif_xc_writer_repair {
   #[derive(Default)]
   struct Stats {
     cases: u64,
-    skipped_f11: u64,
     answered_by_data: u64,
     answered_by_gap: u64,
     heartbeats: u64,
@@ -425,8 +419,16 @@ mod verif_xc_writer_repair {
       w.process_writer_command();
       last_ts = Timestamp::now();
       m.written = i;
-      if (1..=i).any(|s| !retrievable(&w, s)) {
+      let instants: Vec<Timestamp> = w.history_buffer.sequence_number_to_instant.values().copied().collect();
+      if instants.windows(2).any(|p| p[0] >= p[1]) {
         return Ok(false); // two samples got the same clock reading / the clock stepped back
+      }
+      for s in 1..=i {
+        assert!(
+          retrievable(&w, s),
+          "XC-WITNESS label=hist.insert {:?} step=write: sample {} of {} written so far is not retrievable although nothing was cleaned yet",
+          c, s, i
+        );
       }
       collect(h, c, "write", &w, &m)?;
     }
@@ -441,13 +443,6 @@ mod verif_xc_writer_repair {
     w.handle_cache_cleaning();
     if c.a_late {
       match_reader(h, &mut w, &mut m, A, true);
-    }
-
-    if c.a_late && !c.volatile && !F11_FIXED
-      && c.a_req.iter().any(|s| *s <= n && c.to[(*s - 1) as usize] == To::B && retrievable(&w, *s))
-    {
-      st.skipped_f11 += 1;
-      return Ok(true);
     }
 
     // A's request and the repair
@@ -577,12 +572,12 @@ mod verif_xc_writer_repair {
         assert!(
           st.cases > min_cases && st.answered_by_data > min_cases / 4 && st.answered_by_gap > min_cases / 8
             && st.single_reader_gaps > min_cases / 100 && st.heartbeats > min_cases / 4,
-          "vacuity guard ({}): {} scenarios, {} requests answered by DATA, {} by GAP ({} of them for a retrievable sample of the other reader), {} HEARTBEATs, {} F11 scenarios skipped",
-          what, st.cases, st.answered_by_data, st.answered_by_gap, st.single_reader_gaps, st.heartbeats, st.skipped_f11
+          "vacuity guard ({}): {} scenarios, {} requests answered by DATA, {} by GAP ({} of them for a retrievable sample of the other reader), {} HEARTBEATs",
+          what, st.cases, st.answered_by_data, st.answered_by_gap, st.single_reader_gaps, st.heartbeats
         );
         eprintln!(
-          "XC-NOTE {}: {} scenarios, {} requests answered by DATA, {} by GAP ({} for a retrievable sample of the other reader), {} HEARTBEATs, {} F11 scenarios skipped",
-          what, st.cases, st.answered_by_data, st.answered_by_gap, st.single_reader_gaps, st.heartbeats, st.skipped_f11
+          "XC-NOTE {}: {} scenarios, {} requests answered by DATA, {} by GAP ({} for a retrievable sample of the other reader), {} HEARTBEATs",
+          what, st.cases, st.answered_by_data, st.answered_by_gap, st.single_reader_gaps, st.heartbeats
         );
       }
     }
@@ -591,7 +586,7 @@ mod verif_xc_writer_repair {
   fn sweep_test(history: Hist, what: &str) {
     let mut st = Stats::default();
     let r = Harness::new().and_then(|mut h| sweep(&mut h, history, &mut st));
-    report(what, r, &st, 15_000);
+    report(what, r, &st, 20_000);
   }
 
   #[test]
